@@ -10,6 +10,7 @@
 
 use crate::common::*;
 use crate::frames::{self, FrameCase};
+use crate::refz;
 use ruzstd::decoding::{BlockDecodingStrategy, FrameDecoder, StreamingDecoder};
 use serde_json::{json, Value};
 use std::io::{Read, Write};
@@ -38,10 +39,10 @@ impl Read for CountingSrc<'_> {
 enum SinkKind {
     Full,
     Short(usize),
-    /// returns Ok(0) once when this many bytes have been accepted in total
-    ZeroAt(usize),
-    /// fails with WouldBlock once when this many bytes have been accepted in total
-    FailAt(usize),
+    /// returns Ok(0) once when this many bytes have been accepted in total, and (period > 0) again every `period` bytes after that
+    ZeroAt(usize, usize),
+    /// fails with WouldBlock once when this many bytes have been accepted in total, and (period > 0) again every `period` bytes after that
+    FailAt(usize, usize),
 }
 
 struct Sink {
@@ -49,6 +50,33 @@ struct Sink {
     got: Vec<u8>,
     tripped: bool,
     injected: u64,
+    /// cumulative byte count of the next fault
+    next_trip: usize,
+}
+
+impl Sink {
+    fn new(kind: SinkKind) -> Sink {
+        let next_trip = match kind {
+            SinkKind::ZeroAt(t, _) | SinkKind::FailAt(t, _) => t,
+            _ => usize::MAX,
+        };
+        Sink { kind, got: Vec::new(), tripped: false, injected: 0, next_trip }
+    }
+    fn random(r: &mut Rng, content_len: usize, faulty: bool) -> Sink {
+        let at = r.usize(0, content_len.max(1));
+        let period = match r.below(4) {
+            0 => 0,
+            1 => r.usize(1, 40),
+            2 => r.usize(1, 3000),
+            _ => r.size(1, 70_000),
+        };
+        Sink::new(match r.below(if faulty { 4 } else { 6 }) {
+            0 | 1 => SinkKind::ZeroAt(if period > 0 { at % period } else { at }, period),
+            2 | 3 => SinkKind::FailAt(if period > 0 { at % period } else { at }, period),
+            4 => SinkKind::Full,
+            _ => SinkKind::Short(r.usize(1, 300)),
+        })
+    }
 }
 
 impl Write for Sink {
@@ -63,14 +91,19 @@ impl Write for Sink {
                 self.got.extend_from_slice(&buf[..n]);
                 Ok(n)
             }
-            SinkKind::ZeroAt(t) | SinkKind::FailAt(t) => {
-                if !self.tripped && self.got.len() >= t {
-                    self.tripped = true;
+            SinkKind::ZeroAt(_, period) | SinkKind::FailAt(_, period) => {
+                if !self.tripped && self.got.len() >= self.next_trip {
                     self.injected += 1;
-                    return if matches!(self.kind, SinkKind::ZeroAt(_)) { Ok(0) } else { Err(std::io::Error::from(std::io::ErrorKind::WouldBlock)) };
+                    if period == 0 {
+                        self.tripped = true;
+                    } else {
+                        // the next call is accepted (a fault is transient), the next fault comes `period` bytes later
+                        self.next_trip = self.got.len() + period;
+                    }
+                    return if matches!(self.kind, SinkKind::ZeroAt(..)) { Ok(0) } else { Err(std::io::Error::from(std::io::ErrorKind::WouldBlock)) };
                 }
                 // accept up to the threshold, so that the trip happens exactly there
-                let room = if self.tripped { buf.len() } else { (t - self.got.len()).max(1).min(buf.len()) };
+                let room = if self.tripped { buf.len() } else { (self.next_trip - self.got.len()).max(1).min(buf.len()) };
                 self.got.extend_from_slice(&buf[..room]);
                 Ok(room)
             }
@@ -113,7 +146,34 @@ fn check_step(d: &FrameDecoder, tape: &[u8], expected: &[u8], last_total: &mut u
 }
 
 /// mode 1: FrameDecoder with decode_blocks and every drain call
-fn drive_blocks(r: &mut Rng, c: &FrameCase, frame_len: usize, garbage: usize) -> Result<Outcome, Fail> {
+/// A fresh decoder or (one case in three) one that has been used before: the statement quantifies over how the caller
+/// drives the decoder, and a caller that keeps one decoder for all its frames is the common driver. The earlier frames
+/// are checksummed reference frames, completed or abandoned after their first block.
+fn some_decoder(r: &mut Rng, ops: &mut Vec<String>) -> Result<FrameDecoder, Fail> {
+    let mut d = FrameDecoder::new();
+    d.set_max_window_size(u64::MAX);
+    if r.chance(2, 3) {
+        return Ok(d);
+    }
+    let (g, want) = wlcore::hostile::good_frame();
+    let completed = r.chance(3, 4);
+    let mut src = &g[..];
+    let fail = |m: &str| Fail { kind: "harness", msg: format!("history frame: {m}"), ops: vec![] };
+    d.reset(&mut src).map_err(|e| fail(&format!("{e}")))?;
+    if completed {
+        d.decode_blocks(&mut src, BlockDecodingStrategy::All).map_err(|e| fail(&format!("{e}")))?;
+        if d.collect().as_deref() != Some(&want[..]) || !d.is_finished() {
+            return Err(fail("wrong content"));
+        }
+        ops.push("history: a checksummed frame decoded completely on this decoder".into());
+    } else {
+        d.decode_blocks(&mut src, BlockDecodingStrategy::UptoBlocks(1)).map_err(|e| fail(&format!("{e}")))?;
+        ops.push("history: a checksummed frame abandoned after its first block on this decoder".into());
+    }
+    Ok(d)
+}
+
+fn drive_blocks(r: &mut Rng, c: &FrameCase, frame_len: usize, garbage: usize, wrap_directed: bool) -> Result<Outcome, Fail> {
     let mut data = c.bytes.clone();
     data.extend(r.bytes(garbage));
     let pattern: Vec<usize> = match r.below(4) {
@@ -123,13 +183,12 @@ fn drive_blocks(r: &mut Rng, c: &FrameCase, frame_len: usize, garbage: usize) ->
         _ => (0..r.usize(2, 5)).map(|_| r.size(1, 70_000)).collect(),
     };
     let mut src = CountingSrc { data: &data, pos: 0, pattern, calls: 0 };
-    let mut d = FrameDecoder::new();
-    d.set_max_window_size(u64::MAX);
+    let mut ops: Vec<String> = Vec::new();
+    let mut d = some_decoder(r, &mut ops)?;
     if let Some(raw) = &c.dict {
         let dd = ruzstd::decoding::Dictionary::decode_dict(raw).map_err(|e| Fail { kind: "harness", msg: format!("dictionary {e}"), ops: vec![] })?;
         let _ = d.add_dict(dd);
     }
-    let mut ops: Vec<String> = Vec::new();
     let mut stats: Vec<(&'static str, u64)> = Vec::new();
     let mut bump = |k: &'static str| match stats.iter_mut().find(|(n, _)| *n == k) {
         Some(e) => e.1 += 1,
@@ -139,17 +198,7 @@ fn drive_blocks(r: &mut Rng, c: &FrameCase, frame_len: usize, garbage: usize) ->
     let mut last_total = 0usize;
     d.reset(&mut src).map_err(|e| Fail { kind: "valid_frame_error", msg: format!("reset: {e}"), ops: vec!["reset".into()] })?;
     ops.push("reset".into());
-    let mut sink = Sink {
-        kind: match r.below(5) {
-            0 => SinkKind::Full,
-            1 => SinkKind::Short(r.usize(1, 300)),
-            2 => SinkKind::ZeroAt(r.usize(0, c.expected.len().max(1))),
-            _ => SinkKind::FailAt(r.usize(0, c.expected.len().max(1))),
-        },
-        got: Vec::new(),
-        tripped: false,
-        injected: 0,
-    };
+    let mut sink = Sink::random(r, c.expected.len(), wrap_directed);
     let mut steps = 0;
     loop {
         steps += 1;
@@ -157,7 +206,7 @@ fn drive_blocks(r: &mut Rng, c: &FrameCase, frame_len: usize, garbage: usize) ->
             return Err(Fail { kind: "no_progress", msg: "schedule did not finish in 200000 steps".into(), ops });
         }
         if !d.is_finished() {
-            let strat = match r.below(6) {
+            let strat = match if wrap_directed { 1 + r.below(5) } else { r.below(6) } {
                 0 => BlockDecodingStrategy::All,
                 1 => BlockDecodingStrategy::UptoBlocks(1),
                 2 => BlockDecodingStrategy::UptoBlocks(r.usize(1, 4)),
@@ -178,7 +227,7 @@ fn drive_blocks(r: &mut Rng, c: &FrameCase, frame_len: usize, garbage: usize) ->
         let ndrain = if d.is_finished() { r.usize(1, 4) } else { r.usize(0, 3) };
         for _ in 0..ndrain {
             let before_ring = d.verif_ring_state();
-            match r.below(3) {
+            match if wrap_directed && r.chance(3, 4) { 2 } else { r.below(3) } {
                 0 => {
                     let can = d.can_collect();
                     let v = d.collect().unwrap_or_default();
@@ -207,8 +256,19 @@ fn drive_blocks(r: &mut Rng, c: &FrameCase, frame_len: usize, garbage: usize) ->
                 }
                 _ => {
                     let before = sink.got.len();
+                    let faults_before = sink.injected;
                     let res = d.collect_to_writer(&mut sink);
                     let took = sink.got.len() - before;
+                    {
+                        // did this drain cross the wrap point of the ring, and was a fault injected during it?
+                        let (_, cap, head, tail) = before_ring;
+                        if tail < head && took > cap - head {
+                            bump("writer_drains_across_the_wrap_point");
+                            if sink.injected > faults_before {
+                                bump("writer_drains_across_the_wrap_point_with_sink_fault");
+                            }
+                        }
+                    }
                     ops.push(format!("collect_to_writer({:?})->{:?} took {took}", sink.kind, res.as_ref().map_err(|e| e.kind())));
                     if let Ok(n) = res {
                         if n != took {
@@ -219,10 +279,6 @@ fn drive_blocks(r: &mut Rng, c: &FrameCase, frame_len: usize, garbage: usize) ->
                     tape.extend_from_slice(&t);
                     bump("collect_to_writer");
                 }
-            }
-            let (_, cap, head, _) = before_ring;
-            if cap > 0 && head + (tape.len().saturating_sub(0)) > 0 {
-                // drains that crossed the wrap point of the ring are counted by the library hook (buf_drain_two_slices)
             }
             check_step(&d, &tape, &c.expected, &mut last_total, &ops)?;
         }
@@ -258,14 +314,14 @@ fn drive_streaming(r: &mut Rng, c: &FrameCase, garbage: usize) -> Result<Outcome
         _ => (0..r.usize(2, 5)).map(|_| r.size(1, 70_000)).collect(),
     };
     let mut src = CountingSrc { data: &data, pos: 0, pattern, calls: 0 };
-    let mut d = FrameDecoder::new();
-    d.set_max_window_size(u64::MAX);
+    let mut ops = Vec::new();
+    let mut d = some_decoder(r, &mut ops)?;
     if let Some(raw) = &c.dict {
         if let Ok(dd) = ruzstd::decoding::Dictionary::decode_dict(raw) {
             let _ = d.add_dict(dd);
         }
     }
-    let mut ops = vec!["StreamingDecoder::new".to_string()];
+    ops.push("StreamingDecoder::new_with_decoder".to_string());
     let mut tape = Vec::new();
     let style = r.below(4);
     {
@@ -301,11 +357,20 @@ fn drive_streaming(r: &mut Rng, c: &FrameCase, garbage: usize) -> Result<Outcome
 /// mode 3: decode_from_to with every chunking; chunk ends are placed at (or around) structural boundaries
 fn drive_from_to(r: &mut Rng, c: &FrameCase, boundaries: &[usize], header_len: usize) -> Result<Outcome, Fail> {
     let frame = &c.bytes;
-    let mut d = FrameDecoder::new();
-    d.set_max_window_size(u64::MAX);
     let mut ops: Vec<String> = Vec::new();
+    let mut d = some_decoder(r, &mut ops)?;
     let mut tape = Vec::new();
     let mut pos = 0usize;
+    let mut total_read = 0u64;
+    if !ops.is_empty() {
+        // decode_from_to reads a frame header only on a decoder that never had a frame; on a used decoder the caller
+        // starts the next frame with reset() on the header and continues with decode_from_to
+        let mut hdr = &frame[..];
+        d.reset(&mut hdr).map_err(|e| Fail { kind: "valid_frame_error", msg: format!("reset: {e}"), ops: ops.clone() })?;
+        pos = frame.len() - hdr.len();
+        total_read = pos as u64;
+        ops.push(format!("reset on the header ({pos} bytes)"));
+    }
     let directed = r.chance(2, 3);
     let next_end = |r: &mut Rng, pos: usize, end: usize| -> usize {
         // where the caller's next chunk of source ends
@@ -323,9 +388,8 @@ fn drive_from_to(r: &mut Rng, c: &FrameCase, boundaries: &[usize], header_len: u
         }
     };
     // the first chunk has to contain the frame header
-    let mut end = next_end(r, 0, 0).max(header_len).min(frame.len());
+    let mut end = next_end(r, pos, pos).max(header_len).min(frame.len());
     let mut last_total = 0usize;
-    let mut total_read = 0u64;
     let mut steps = 0;
     let mut idle_at_end = 0;
     loop {
@@ -358,8 +422,13 @@ fn drive_from_to(r: &mut Rng, c: &FrameCase, boundaries: &[usize], header_len: u
         if d.is_finished() && d.can_collect() == 0 && d.verif_buffer_len() == 0 {
             break;
         }
+        if rd != 0 || wr != 0 {
+            idle_at_end = 0;
+        }
         if rd == 0 && wr == 0 {
-            if end == frame.len() {
+            if end == frame.len() && tn == 0 {
+                // nothing can happen with an empty target once the source is used up: not the decoder's fault
+            } else if end == frame.len() {
                 idle_at_end += 1;
                 // all source offered; if only a zero sized target was the reason keep going
                 if idle_at_end > 50 {
@@ -390,7 +459,20 @@ pub fn run(args: &Args) -> i32 {
     let n = args.vol(5000, 300_000);
     par_cases(&rec, 6, n, |i, r| {
         // frames with several blocks and small windows are the interesting ones
-        let mut c = match r.below(6) {
+        // one case in six: content several times the (small) window, drained mostly through faulting sinks while decoding
+        // goes on, so that drains straddle the wrap point of the ring buffer while the sink stops in the middle
+        let wrap_directed = i % 6 == 5;
+        let mut c = match if wrap_directed { 6 } else { r.below(6) } {
+            6 => {
+                let len = r.usize(40_000, 400_000);
+                let shape = crate::wl::random_shape(r);
+                let data = crate::wl::gen(r, shape, len);
+                let wlog = r.usize(10, 15) as u32;
+                match refz::compress(&data, *r.pick(&[1, 3, 5]), &[refz::CP::WindowLog(wlog), refz::CP::ChecksumFlag(r.chance(1, 2))], None) {
+                    Ok(bytes) => FrameCase { bytes, expected: data, dict: None, origin: format!("libzstd windowLog {wlog}, {len} bytes {shape:?}") },
+                    Err(_) => frames::libzstd_frame(r, 100_000),
+                }
+            }
             0 => frames::seq_frame(r),
             1 => frames::any_frame(r, 300_000),
             _ => {
@@ -427,15 +509,15 @@ pub fn run(args: &Args) -> i32 {
         if info.header.checksum {
             boundaries.push(info.frame_len - 4);
         }
-        let mode = r.below(3);
+        let mode = if wrap_directed { 0 } else { r.below(3) };
         let garbage = if r.chance(1, 2) { r.usize(1, 40) } else { 0 };
         let res = catch(|| match mode {
-            0 => drive_blocks(r, &c, info.frame_len, garbage),
+            0 => drive_blocks(r, &c, info.frame_len, garbage, wrap_directed),
             1 => drive_streaming(r, &c, garbage),
             _ => {
                 if c.dict.is_some() {
                     // decode_from_to has no way to register a dictionary before init on a fresh decoder: use the block mode
-                    drive_blocks(r, &c, info.frame_len, garbage)
+                    drive_blocks(r, &c, info.frame_len, garbage, false)
                 } else {
                     drive_from_to(r, &c, &boundaries, info.header.header_len)
                 }
@@ -511,6 +593,9 @@ pub fn run(args: &Args) -> i32 {
         if rec.feat(f) == 0 {
             rec.inconclusive(&format!("coverage floor: {f} never happened (no drain crossed the ring's wrap point / no partial write)"));
         }
+    }
+    if rec.counter("writer_drains_across_the_wrap_point_with_sink_fault") == 0 {
+        rec.inconclusive("coverage floor: no sink fault was injected during a writer drain that crossed the ring's wrap point");
     }
     let _: Option<Value> = None;
     rec.finish()
